@@ -81,10 +81,49 @@ Theorem C12_history_list_complete : forall (K : Type) (O : ops K),
 Proof. exact spec_Jd_zero. Qed.
 Print Assumptions C12_history_list_complete.
 
-(* the full statement (no guard) is false of the faithful model: instantaneous entry with a delayed factor -> NameError *)
-Theorem C12_refuted_delayed_factor : ~ C12_full_statement.
-Proof. exact full_statement_refuted_delayed. Qed.
+(* the full statement (no guard).  It is false of the code that prints instantaneous entries without the table of past symbols
+   (defect D08b: NameError), and it is a theorem of the model with the repair proposed_fix_C12_D08b.diff; which of the two the
+   model `jac_impl` is, is the switch Jacobian.fixed_D08b. *)
+Theorem C12_refuted_delayed_factor :
+  ~ (forall (s : sys Qc) (r : atom -> Qc), wf s = true -> jac_impl_D08b_open QcO s r = jac_spec QcO s r).
+Proof. exact D08b_open_refuted. Qed.
 Print Assumptions C12_refuted_delayed_factor.
+
+Theorem C12_full_refuted_while_D08b_open : fixed_D08b = false -> ~ C12_full_statement.
+Proof. exact full_statement_refuted_while_open. Qed.
+Print Assumptions C12_full_refuted_while_D08b_open.
+
+Theorem C12_full_when_D08b_fixed : fixed_D08b = true -> C12_full_statement.
+Proof. exact full_statement_iff_switch. Qed.
+Print Assumptions C12_full_when_D08b_fixed.
+
+Theorem C12_full_any_ring : forall (K : Type) (O : ops K),
+  ring_theory (o0 O) (o1 O) (oadd O) (omul O) (osub O) (oopp O) eq ->
+  forall pastJ0 (s : sys K) (r : atom -> K), wf s = true -> pastJ0 = true \/ no_delayed_factor_in_j0 O s = true ->
+  jac_impl_gen O true noskip pastJ0 s r = jac_spec O s r.
+Proof. exact jac_refines_gen. Qed.
+Print Assumptions C12_full_any_ring.
+
+(* auto-07p DFDU / DFDP: entry (i, k) of the parameter Jacobian is D f_i p_k (parameters in argument order; any number of
+   parameters and equations), and both blocks evaluate to the partial derivatives of the vector field of get_run_func *)
+Theorem C12_DFDP_placement : forall (K : Type) (O : ops K) params (s : sys K),
+  dfdp_mat O params s =
+  map (fun i => map (fun k => D O (nth i (fexprs s) (Cst (o0 O))) (AV (nth k params 0))) (seq 0 (length params)))
+      (seq 0 (length (fexprs s))).
+Proof. exact dfdp_placement. Qed.
+Print Assumptions C12_DFDP_placement.
+
+Theorem C12_DFDP_refines : forall (K : Type) (O : ops K),
+  ring_theory (o0 O) (o1 O) (oadd O) (omul O) (osub O) (oopp O) eq ->
+  forall cols (s : sys K) (r : atom -> K), eval_mat O r (dfdp_mat O cols s) = spec_rect O s r cols.
+Proof. exact dfdp_refines. Qed.
+Print Assumptions C12_DFDP_refines.
+
+Theorem C12_DFDU_refines : forall (K : Type) (O : ops K),
+  ring_theory (o0 O) (o1 O) (oadd O) (omul O) (osub O) (oopp O) eq ->
+  forall (s : sys K) (r : atom -> K), eval_mat O r (dfdu_mat O s) = spec_rect O s r (states s).
+Proof. exact dfdu_refines. Qed.
+Print Assumptions C12_DFDU_refines.
 
 (* note, before fix D51: an entry whose derivative passes through absv was silently left 0 *)
 Theorem C12_absv_preD51_refuted : exists s r, wf s = true /\ no_delayed_factor_in_j0 QcO s = true /\
